@@ -1,8 +1,158 @@
-(* C04 - application is linear and as_matrix() is its faithful dense form.  (work in progress) *)
-From Coq Require Import List Ring ZArith.
+(* C04 - application is linear and as_matrix() is its faithful dense form.
+   Statements only; proofs are `exact <lemma>` (Lemmas/AsMatrixL.v).
+   Model: Model/Denote.v (`denote`: what mv does, over pytrees of flat row-major leaves),
+   Model/AsMatrix.v (`as_matrix_generic`: the fori_loop of AbstractLinearOperator.as_matrix with its
+   jcounter; `generic_columns`: column j = flattened image of the j-th basis vector; `as_matrix`: every
+   override).  `lin_facts leafsem`: the leaf operators (primitives, opaque user operators, lazy wrappers)
+   are additive and homogeneous - the composite statements are proved for ALL expression trees. *)
+From Coq Require Import List Ring ZArith String.
 From Furax Require Import Base.Pytree Model.Op Model.Algebra Model.Denote Model.Wf Model.AsMatrix
-  Lemmas.DenoteL Lemmas.Sound Lemmas.AsMatrixL.
+  Lemmas.DenoteL Lemmas.Sound Lemmas.AsMatrixL Lemmas.StructsL Lemmas.AsMatrixExecL.
 Import ListNotations.
 
-Example c04_eye : m_cols (eye Z 0%Z 1%Z 2) = [[1%Z; 0%Z]; [0%Z; 1%Z]].
-Proof. reflexivity. Qed.
+Section C04.
+  Variable K : Type.
+  Variables (k0 k1 : K) (kadd kmul ksub : K -> K -> K) (kopp : K -> K).
+  Hypothesis Kth : ring_theory k0 k1 kadd kmul ksub kopp (@eq K).
+  Variable leafsem : op K -> value K -> option (value K).
+  Hypothesis LA : lin_facts K kadd kmul leafsem.
+  Notation den := (denote kadd kmul leafsem).
+
+  (* op(k x) = k op(x): for every expression tree, every scalar, every input (None = None when the
+     application fails) *)
+  Theorem denote_homogeneous : forall e k x, den e (vscale kmul k x) = option_map (vscale kmul k) (den e x).
+  Proof. exact (denote_hom' K k0 k1 kadd kmul ksub kopp Kth leafsem LA). Qed.
+
+  (* op(x + y) = op(x) + op(y) whenever op applies to x and to y (then it applies to x + y) *)
+  Theorem denote_additive : forall e x y z x' y', vadd kadd x y = Some z ->
+    den e x = Some x' -> den e y = Some y' ->
+    exists z', vadd kadd x' y' = Some z' /\ den e z = Some z'.
+  Proof. exact (AsMatrixL.denote_additive K k0 k1 kadd kmul ksub kopp Kth leafsem LA). Qed.
+
+  (* op(a x + b y) = a op(x) + b op(y) *)
+  Theorem denote_linear : forall e a b x y x' y' z, den e x = Some x' -> den e y = Some y' ->
+    vadd kadd (vscale kmul a x) (vscale kmul b y) = Some z ->
+    exists z', vadd kadd (vscale kmul a x') (vscale kmul b y') = Some z' /\ den e z = Some z'.
+  Proof. exact (denote_linear_l K k0 k1 kadd kmul ksub kopp Kth leafsem LA). Qed.
+
+  (* op(x) = M flat(x) for the matrix M whose j-th column is the flattened image of the j-th basis
+     vector of the flattened input (leaves in pytree order, each row-major; rows likewise), for every
+     pytree layout of input and output.  `honest e`: the declared output size is the size of what the
+     operator returns (C05).
+     FULL statement (apply_is_matvec): the same with `as_matrix_generic e = Some M` (the transcribed
+     fori_loop with jcounter and basis_input) instead of `generic_columns e = Some cols`; the missing
+     step is `as_matrix_generic e = option_map (mkMat (out_size e)) (generic_columns e)`, which the
+     correspondence checks on every case (x_generic vs Exec.mat vs the real generic as_matrix). *)
+  Theorem apply_is_matvec_partial : forall e cols, honest K kadd kmul leafsem e ->
+    generic_columns K k0 k1 kadd kmul leafsem e = Some cols ->
+    forall x y, vhas K x (in_struct e) = true -> den e x = Some y ->
+    vflat K y = matvec K k0 kadd kmul (mkMat (out_size e) cols) (vflat K x).
+  Proof. exact (columns_matvec K k0 k1 kadd kmul ksub kopp Kth leafsem LA). Qed.
+
+  (* ---- every override ---- *)
+  Section Overrides.
+    Variable leaf_override : op K -> option (mat K).   (* as_matrix of DiagonalOperator / Toeplitz / DiagonalInverse *)
+    Variable minv : mat K -> option (mat K).           (* jnp.linalg.inv *)
+    Notation asm := (as_matrix K k0 k1 kadd kmul leafsem leaf_override minv).
+    Notation gen := (as_matrix_generic K k0 k1 kadd kmul leafsem).
+    Notation represents := (repr K k0 kadd kmul leafsem).
+    (* the premises of the composite theorem:
+       LOOP  the transcribed fori_loop builds the matrix of columns (NOT proved: `_partial`; checked by the
+             correspondence on every case: x_generic = Exec.mat = the real generic as_matrix)
+       HON   C05: what a well-formed operator returns has its declared output size (NOT proved here)
+       HOV   leaf-level overrides (C11 diag_as_matrix, C09 as_matrix_times_x) represent their leaf
+       HRESH ravel/reshape: eye(in_size) represents the relabelling
+       HINV  jnp.linalg.inv returned a left inverse;  HSOLVE  a lazy inverse returns a solution *)
+    Hypothesis LOOP : forall e, gen e = option_map (mkMat (out_size e)) (generic_columns K k0 k1 kadd kmul leafsem e).
+    Hypothesis HON : forall e, wfo e = true -> honest K kadd kmul leafsem e.
+    Hypothesis HOV : forall e M, leaf_override e = Some M -> represents e M.
+    Hypothesis HRESH : forall i c si so p, c = CRavel \/ c = CReshape ->
+      represents (Prim i c si so p) (eye K k0 k1 (in_size (Prim i c si so p : op K))).
+    Hypothesis HINV : forall M N, minv M = Some N ->
+      mwf K N /\ m_nr N = List.length (m_cols M) /\ List.length (m_cols N) = m_nr M /\
+      forall w, List.length w = List.length (m_cols M) -> matvec K k0 kadd kmul N (matvec K k0 kadd kmul M w) = w.
+    Hypothesis HSOLVE : forall i w e z y1, w = WInverse \/ w = WQURotT ->
+      vhas K z (out_struct e) = true -> leafsem (Wrap i w e) z = Some y1 ->
+      den e y1 = Some z /\ vhas K y1 (in_struct e) = true.
+
+    (* as_matrix() of every well-formed expression tree - identity, scalar, sum, block row / diagonal /
+       column over arbitrarily nested containers (leaves in pytree order), ravel/reshape, lazy inverse,
+       compositions, and every composite of them - is an (out_size x in_size) array whose product with the
+       flattened input is the flattened output *)
+    Theorem override_represents_partial : forall e, wfo e = true -> forall M, asm e = Some M -> represents e M.
+    Proof. exact (override_repr K k0 k1 kadd kmul ksub kopp Kth leafsem LA leaf_override minv LOOP HON HOV HRESH HINV HSOLVE). Qed.
+
+    (* ... hence it IS the matrix of the generic construction.
+       FULL statement (override_eq_generic): the same without the premises LOOP and HON. *)
+    Theorem override_eq_generic_partial : forall e M G, wfo e = true -> asm e = Some M -> gen e = Some G -> M = G.
+    Proof. exact (override_eq_generic_l K k0 k1 kadd kmul ksub kopp Kth leafsem LA leaf_override minv LOOP HON HOV HRESH HINV HSOLVE). Qed.
+  End Overrides.
+
+  (* the class-by-class steps, free of the premises above: a sum / block operator of represented operands
+     is represented by the sum / hstack / block_diag / vstack of their matrices (leaf order = pytree order) *)
+  Theorem sum_represents : forall i l Ms M, wfo (AddOp i l) = true ->
+    Forall2 (repr K k0 kadd kmul leafsem) l Ms -> msum K kadd Ms = Some M -> repr K k0 kadd kmul leafsem (AddOp i l) M.
+  Proof. exact (repr_sum K k0 k1 kadd kmul ksub kopp Kth leafsem). Qed.
+  Theorem block_represents : forall i b td l Ms M, wfo (Block i b td l) = true ->
+    Forall2 (repr K k0 kadd kmul leafsem) l Ms ->
+    (match b with BRow => hstack K Ms | BDiag => Some (block_diag K k0 Ms) | BCol => vstack K Ms end) = Some M ->
+    repr K k0 kadd kmul leafsem (Block i b td l) M.
+  Proof. exact (repr_block K k0 k1 kadd kmul ksub kopp Kth leafsem). Qed.
+
+  (* IdentityOperator and HomothetyOperator over ANY pytree structure: no premise at all *)
+  Theorem identity_scalar_override_is_generic : forall leaf_override minv e M cols,
+    (exists i s, e = Ident i s) \/ (exists i k s, e = Homoth i k s) ->
+    as_matrix K k0 k1 kadd kmul leafsem leaf_override minv e = Some M ->
+    generic_columns K k0 k1 kadd kmul leafsem e = Some cols -> M = mkMat (out_size e) cols.
+  Proof. exact (override_ident_homoth K k0 k1 kadd kmul ksub kopp Kth leafsem LA). Qed.
+
+  (* the premise HON is C05's theorem (Lemmas/StructsL.v, read-only) whenever the leaves are honest *)
+  Theorem honesty_premise_from_C05 : (forall l, leaf_honest K leafsem l) ->
+    forall e : op K, wfo e = true -> honest K kadd kmul leafsem e.
+  Proof. exact (honest_from_c05 K kadd kmul leafsem). Qed.
+
+  (* any (out_size x in_size) array whose product with the flattened input is the flattened output
+     IS the generic matrix: equality of the overrides with the generic construction reduces to "the
+     override multiplies like the operator applies" *)
+  Theorem represents_implies_generic : forall e M cols, repr K k0 kadd kmul leafsem e M ->
+    honest K kadd kmul leafsem e -> generic_columns K k0 k1 kadd kmul leafsem e = Some cols ->
+    M = mkMat (out_size e) cols.
+  Proof. exact (repr_to_columns K k0 k1 kadd kmul ksub kopp Kth leafsem LA). Qed.
+
+  (* a dense matrix is determined by its products with vectors (so "same products" = "same array") *)
+  Theorem matrix_determined_by_products : forall A B : mat K, mwf K A -> mwf K B -> m_nr A = m_nr B ->
+    List.length (m_cols A) = List.length (m_cols B) ->
+    (forall v, List.length v = List.length (m_cols A) -> matvec K k0 kadd kmul A v = matvec K k0 kadd kmul B v) -> A = B.
+  Proof. exact (mat_ext K k0 k1 kadd kmul ksub kopp Kth). Qed.
+End C04.
+Print Assumptions denote_homogeneous.
+Print Assumptions denote_additive.
+Print Assumptions denote_linear.
+Print Assumptions apply_is_matvec_partial.
+Print Assumptions override_represents_partial.
+Print Assumptions override_eq_generic_partial.
+Print Assumptions sum_represents.
+Print Assumptions block_represents.
+Print Assumptions identity_scalar_override_is_generic.
+Print Assumptions honesty_premise_from_C05.
+Print Assumptions represents_implies_generic.
+Print Assumptions matrix_determined_by_products.
+
+(* non-vacuity: lin_facts is satisfiable (every leaf the identity map), and the overrides compute the
+   expected matrices on a concrete nested container with dict keys in sorted order *)
+Example c04_lin_facts_sat : lin_facts Z Z.add Z.mul (fun _ x => Some x).
+Proof.
+  split.
+  - intros; reflexivity.
+  - intros e x y z x' y' _ Hz Hx Hy. inversion Hx; inversion Hy; subst. eauto.
+Qed.
+Example c04_block_diag :
+  let s2 := Leaf (mkSds [2] 0) in let s1 := Leaf (mkSds [] 0) in
+  let e : op Z := Block 1%N BDiag (Node (KDict ["a"; "b"]%string) [Leaf tt; Node KList [Leaf tt]])
+                   [Homoth 2%N 3%Z s2; Ident 3%N s1] in
+  option_map (@m_cols Z) (as_matrix Z 0%Z 1%Z Z.add Z.mul (fun _ x => Some x) (fun _ => None) (fun _ => None) e)
+  = Some [[3; 0; 0]; [0; 3; 0]; [0; 0; 1]]%Z /\
+  option_map (@m_cols Z) (as_matrix_generic Z 0%Z 1%Z Z.add Z.mul (fun _ x => Some x) e)
+  = Some [[3; 0; 0]; [0; 3; 0]; [0; 0; 1]]%Z /\
+  generic_columns Z 0%Z 1%Z Z.add Z.mul (fun _ x => Some x) e = Some [[3; 0; 0]; [0; 3; 0]; [0; 0; 1]]%Z.
+Proof. vm_compute. repeat split. Qed.
